@@ -241,6 +241,8 @@ func init() {
 	C("Copy", "", func(e *env) { _ = e.ctx.Copy() })
 	C("ForEachKey", "", func(e *env) { e.ctx.ForEachKey(func(string, interface{}) {}) })
 	C("Get", "", func(e *env) { e.ctx.Get("c09") })
+	C("GetString", "", func(e *env) { _ = e.ctx.GetString("c09") })
+	C("Value", "", func(e *env) { _ = e.ctx.Value("c09") })
 	C("Data", "", func(e *env) { e.ctx.Data(201, "application/c09", []byte("c09-data")) })
 	C("Error", "", func(e *env) { e.ctx.Error(errors.New("c09-err")) }) //nolint:errcheck
 	C("Exile", "", func(e *env) { e.ctx.Exile() })
